@@ -484,6 +484,26 @@ fn fixed_bases(b: &mut B, d: &Docs, rng: &mut ChaCha20Rng) {
         let t = vec![wrapped(b.direct("stm::verif_export::tree_from_bytes"), vec![])];
         b.push("MerkleTree/legacy", lt.bytes.clone(), Kind::Legacy(lt.len_fields.clone()), None, t);
     }
+    // ---- protocol parameters: value diversity (u64 extremes, many doubles) ------------------
+    for i in 0..12u64 {
+        let p = mithril_stm::Parameters {
+            m: crate::util::interesting_u64(rng) & 0x00ff_ffff_ffff_ffff, // top byte 1 would select the CBOR branch for legacy bytes
+            k: crate::util::interesting_u64(rng),
+            phi_f: match i {
+                0 => 0.2,
+                1 => 0.65,
+                2 => 0.9,
+                3 => f64::MIN_POSITIVE,
+                4 => 1.0 - f64::EPSILON / 2.0,
+                _ => rnd::f64_unit(rng),
+            },
+        };
+        let c = canon(&p);
+        let t = vec![b.direct("stm::Parameters::from_bytes")];
+        b.push(&format!("Parameters#{i}/cbor-v1"), p.to_bytes().unwrap(), Kind::Cbor, Some(c.clone()), t);
+        let t = vec![b.direct("stm::Parameters::from_bytes")];
+        b.push(&format!("Parameters#{i}/legacy"), legacy::parameters(p.m, p.k, p.phi_f).bytes, Kind::Raw, Some(c), t);
+    }
     // ---- KES signature, operational certificate, ed25519 ---------------------------------
     let k_kes = "common::ProtocolSignerVerificationKeySignatureForConcatenation(Sum6KesSig)";
     for (i, h) in fake_keys::signer_verification_key_signature().iter().enumerate() {
@@ -717,16 +737,24 @@ fn mutants_of(base: &Base, bud: &Budget, rng: &mut ChaCha20Rng) -> Vec<Mutant> {
     v
 }
 
-/// The deterministic, structure-aware part of the workload (identical in every shard for a given
-/// seed and tier; a shard runs the items whose index is congruent to it).
-pub fn structured_items(c: &Corpus, entries: &[Entry], seed: u64, tier: Tier) -> Vec<Item> {
+/// The deterministic, structure-aware part of the workload: the same list in every shard for a
+/// given seed and tier; a shard materialises only the items whose index is congruent to it.
+/// Returns (items of the shard, size of the whole list).
+pub fn structured_items(c: &Corpus, entries: &[Entry], seed: u64, tier: Tier, shard: u64, n_shards: u64) -> (Vec<Item>, u64) {
     let bud = budget(tier);
     let mut rng = ChaCha20Rng::from_seed(vcore::derive_seed(seed, "C05", "structured", 0));
     let mut items: Vec<Item> = vec![];
+    let mut idx: u64 = 0;
+    let mut emit = |make: &dyn Fn() -> Item| {
+        if idx % n_shards == shard {
+            items.push(make());
+        }
+        idx += 1;
+    };
     for base in &c.bases {
         // honest encoding through every transport
         for t in &base.transports {
-            items.push(Item {
+            emit(&|| Item {
                 entry: t.entry,
                 input: t.carry(&base.bytes),
                 class: format!("{} | honest | {}", base.label, t.label()),
@@ -748,8 +776,15 @@ pub fn structured_items(c: &Corpus, entries: &[Entry], seed: u64, tier: Tier) ->
                 if !mu.key && !t.wraps.is_empty() {
                     continue;
                 }
-                if let Some(input) = t.carry_text(&mu.bytes) {
-                    items.push(Item { entry: t.entry, input, class: format!("{} | {} | {}", base.label, mu.class, t.label()), expect: None, honest: false, structured: true });
+                if t.carry_text(b"00").is_some() {
+                    emit(&|| Item {
+                        entry: t.entry,
+                        input: t.carry_text(&mu.bytes).unwrap_or_default(),
+                        class: format!("{} | {} | {}", base.label, mu.class, t.label()),
+                        expect: None,
+                        honest: false,
+                        structured: true,
+                    });
                 }
             }
         }
@@ -759,7 +794,7 @@ pub fn structured_items(c: &Corpus, entries: &[Entry], seed: u64, tier: Tier) ->
                 if !take {
                     continue;
                 }
-                items.push(Item {
+                emit(&|| Item {
                     entry: t.entry,
                     input: t.carry(&mu.bytes),
                     class: format!("{} | {} | {}", base.label, mu.class, t.label()),
@@ -772,6 +807,7 @@ pub fn structured_items(c: &Corpus, entries: &[Entry], seed: u64, tier: Tier) ->
     }
     // bombs: independent of a base, sent to every door of the matching wire format
     let cbor_bombs = mutate::cbor_bombs(&bud.cbor_depths);
+    let binc_bombs = mutate::bincode_bombs(&bud.bincode_depths);
     let mut seen_cbor = std::collections::BTreeSet::new();
     let mut seen_binc = std::collections::BTreeSet::new();
     for base in &c.bases {
@@ -780,18 +816,18 @@ pub fn structured_items(c: &Corpus, entries: &[Entry], seed: u64, tier: Tier) ->
             let key = format!("{}|{}", t.entry, t.label());
             if matches!(base.kind, Kind::Cbor | Kind::Legacy(_) | Kind::Raw) && seen_cbor.insert(key.clone()) {
                 for mu in &cbor_bombs {
-                    items.push(Item { entry: t.entry, input: t.carry(&mu.bytes), class: format!("{} | {} | {}", base.label, mu.class, t.label()), expect: None, honest: false, structured: true });
+                    emit(&|| Item { entry: t.entry, input: t.carry(&mu.bytes), class: format!("{} | {} | {}", base.label, mu.class, t.label()), expect: None, honest: false, structured: true });
                 }
             }
             if matches!(base.kind, Kind::Bincode) && base.label.starts_with("MKMapProof") && seen_binc.insert(key) {
-                for mu in mutate::bincode_bombs(&bud.bincode_depths) {
-                    items.push(Item { entry: t.entry, input: t.carry(&mu.bytes), class: format!("{} | {} | {}", base.label, mu.class, t.label()), expect: None, honest: false, structured: true });
+                for mu in &binc_bombs {
+                    emit(&|| Item { entry: t.entry, input: t.carry(&mu.bytes), class: format!("{} | {} | {}", base.label, mu.class, t.label()), expect: None, honest: false, structured: true });
                 }
             }
         }
     }
     let _ = entries;
-    items
+    (items, idx)
 }
 
 /// the random part: per (shard, round) rng
